@@ -4,3 +4,6 @@ import ArtapModel.Props.C02
 import ArtapModel.Props.C07
 import ArtapModel.Props.C09
 import ArtapModel.Props.C11
+import ArtapModel.Props.C03
+import ArtapModel.Props.C13
+import ArtapModel.Props.C16
